@@ -49,16 +49,17 @@ func errClass(err error) string {
 }
 
 type connCall struct {
-	idx       int
-	row       []byte
-	direct    bool
-	app       bool // an Append (request carries a cellblock: several Write units)
-	call      hrpc.Call
-	cancel    context.CancelFunc
-	cancelled bool
-	results   []string
-	foreign   []string // rows of cells that are not this call's row
-	msgs      []proto.Message
+	idx        int
+	row        []byte
+	direct     bool
+	app        bool // an Append (request carries a cellblock: several Write units)
+	call       hrpc.Call
+	cancel     context.CancelFunc
+	cancelled  bool
+	unsendable bool
+	results    []string
+	foreign    []string // rows of cells that are not this call's row
+	msgs       []proto.Message
 }
 
 type wireInfo struct {
@@ -87,15 +88,19 @@ type connScn struct {
 	closedBy     bool
 	regs         []hrpc.RegionInfo
 	broken       string
-	misdelivered []string // call:hex(frame id) — completed by a response frame of another request
-	inQueue      int32    // QueueRPC calls that have not returned yet
-	profile      string
+	misdelivered []string // call:hex(what) — completed by a response frame of another request, or with
+	// something else than its answer
+	seenResults []int
+	expect      map[int]string // call → what the response frame fed for its request says about it
+	hasPoison   bool           // a batchable call that cannot be marshalled has been queued
+	inQueue     int32          // QueueRPC calls that have not returned yet
+	profile     string
 }
 
 var discardLogger = slog.New(slog.NewTextHandler(io.Discard, nil))
 
 func newConnScn(rng *RNG, q int) *connScn {
-	s := &connScn{rng: rng, q: q, rowIdx: map[string]int{}, gidWire: map[int64]*wireInfo{},
+	s := &connScn{rng: rng, q: q, rowIdx: map[string]int{}, expect: map[int]string{}, gidWire: map[int64]*wireInfo{},
 		gidWho: map[int64]string{}, wires: map[uint32]*wireInfo{}}
 	s.v = newVConn()
 	dialer := func(ctx context.Context, network, addr string) (net.Conn, error) { return s.v, nil }
@@ -308,7 +313,18 @@ func (s *connScn) buildFrame(w *wireInfo, kind string) ([]byte, string) {
 				}
 			} else {
 				cls := excClass[k]
-				roe.Exception = &pb.NameBytesPair{Name: &cls, Value: []byte("stack")}
+				msg := fmt.Sprintf("stack of call %d;", w.calls[p])
+				// java.io.IOException is a region exception only with one particular message: the
+				// class alone does not decide what the caller is told
+				if (k == "nsre" || k == "fatal") && s.rng.Intn(3) == 0 {
+					cls = "java.io.IOException"
+					if k == "nsre" {
+						msg += " Cannot append; log is closed"
+					} else {
+						msg += " disk on fire"
+					}
+				}
+				roe.Exception = &pb.NameBytesPair{Name: &cls, Value: []byte(msg)}
 			}
 			desc = append(desc, fmt.Sprintf("%d.%s", w.calls[p], k))
 			rar.ResultOrException = append(rar.ResultOrException, roe)
@@ -384,6 +400,10 @@ func (s *connScn) observe() string {
 			select {
 			case r := <-c.call.ResultChan():
 				c.results = append(c.results, errClass(r.Error))
+				if r.Error != nil && strings.Contains(r.Error.Error(), "stack of call ") &&
+					!strings.Contains(r.Error.Error(), fmt.Sprintf("stack of call %d;", c.idx)) {
+					c.foreign = append(c.foreign, "exception-of-another-call")
+				}
 				if r.Error == nil {
 					c.msgs = append(c.msgs, r.Msg)
 					var res *pb.Result
@@ -513,11 +533,158 @@ func slowCloseScenario() string {
 	return fmt.Sprintf("c03 script slow-close wrote=%d armed=%v closed=%v results=%d class=%s", wrote, armed, closed, len(c.results), cls)
 }
 
+// blockedWriteCloseScenario (C03): a request is stuck inside conn.Write (the server does not read)
+// when the connection is closed from outside. The failure transition must not wait for that Write:
+// the connection gets closed (which is what ends a blocked Write on a real socket) and Close
+// returns.
+func blockedWriteCloseScenario() string {
+	s := newConnScn(NewRNG(1, "blockedwrite"), 1)
+	if s.broken != "" {
+		return "c03 script blocked-write-close broken:" + strings.ReplaceAll(s.broken, " ", "_")
+	}
+	first := s.newCall(true, false)
+	go s.rc.QueueRPC(first.call)
+	settle() // parked inside Write
+	parked := false
+	for _, g := range s.v.Pending() {
+		parked = parked || g.kind == "write"
+	}
+	closed := make(chan struct{})
+	go func() { s.rc.Close(); close(closed) }()
+	returned := false
+	select {
+	case <-closed:
+		returned = true
+	case <-time.After(time.Second):
+	}
+	connClosed := s.v.Closed()
+	// now let the stuck Write end, as closing the socket would
+	for _, g := range s.v.Pending() {
+		s.v.take(g)
+		g.ch <- gateRes{err: errVReset}
+	}
+	select {
+	case <-closed:
+	case <-time.After(time.Second):
+	}
+	settle()
+	for _, g := range s.v.Pending() {
+		s.v.take(g)
+		g.ch <- gateRes{err: errVReset}
+	}
+	settle()
+	s.observe()
+	return fmt.Sprintf("c03 script blocked-write-close parked=%v closereturned=%v connclosed=%v results=%d", parked, returned, connClosed, len(first.results))
+}
+
+// deadlineScenario (C18): two requests are outstanding; the server answers the first one 60 ms
+// after the second was sent and never answers the second. The read deadline on the connection has
+// to stay where the last *request* put it: answers do not push it back.
+func deadlineScenario() string {
+	s := newConnScn(NewRNG(1, "deadline"), 1)
+	if s.broken != "" {
+		return "c18 script deadline broken:" + strings.ReplaceAll(s.broken, " ", "_")
+	}
+	release := func(kind string) bool {
+		for i := 0; i < 400; i++ {
+			settle()
+			for _, g := range s.v.Pending() {
+				if g.kind == kind {
+					s.v.take(g)
+					g.ch <- gateRes{}
+					return true
+				}
+			}
+			time.Sleep(100 * time.Microsecond)
+		}
+		return false
+	}
+	a, b := s.newCall(true, false), s.newCall(true, false)
+	go s.rc.QueueRPC(a.call)
+	release("write")
+	release("deadline")
+	go s.rc.QueueRPC(b.call)
+	release("write")
+	release("deadline")
+	settle()
+	lastSend := time.Now()
+	d0 := s.v.Deadline()
+	time.Sleep(60 * time.Millisecond)
+	// answer a
+	var wa *wireInfo
+	for _, u := range s.v.Written() {
+		if w := s.frameHead(u); w != nil && len(w.calls) == 1 && w.calls[0] == a.idx {
+			wa = w
+		}
+	}
+	answered := false
+	if wa != nil {
+		data, _ := s.buildFrame(wa, "res")
+		for _, g := range s.v.Pending() {
+			if g.kind == "read" {
+				s.v.take(g)
+				g.ch <- gateRes{data: data}
+				answered = true
+				break
+			}
+		}
+	}
+	settle()
+	// whatever deadline operation the response triggers
+	for i := 0; i < 3; i++ {
+		for _, g := range s.v.Pending() {
+			if g.kind == "deadline" {
+				s.v.take(g)
+				g.ch <- gateRes{}
+			}
+		}
+		settle()
+	}
+	d1 := s.v.Deadline()
+	s.observe()
+	late := int64(0)
+	if !d1.IsZero() {
+		late = d1.Sub(lastSend.Add(time.Hour)).Milliseconds() // readTimeout of these clients is 1h
+	}
+	res := fmt.Sprintf("c18 script deadline answered=%v aresults=%d armed=%v moved_ms=%d late_ms=%d", answered, len(a.results),
+		!d1.IsZero(), d1.Sub(d0).Milliseconds(), late)
+	go s.rc.Close()
+	settle()
+	for _, g := range s.v.Pending() {
+		s.v.take(g)
+		g.ch <- gateRes{err: errVReset}
+	}
+	return res
+}
+
 func (s *connScn) log(act string) {
 	if !settle() {
 		s.broken = "no quiescence after " + act
 	}
 	s.steps = append(s.steps, act+"/"+s.observe())
+	// C02/C03: whatever completes a call is either the answer the server gave to its request, or a
+	// connection-level error (the connection failed first), or — for a request that could not be
+	// marshalled — the local error
+	for i, c := range s.calls {
+		for len(s.seenResults) <= i {
+			s.seenResults = append(s.seenResults, 0)
+		}
+		if len(c.results) > s.seenResults[i] {
+			got := c.results[len(c.results)-1]
+			want, answered := s.expect[c.idx]
+			ok := got == "connErr"
+			if answered {
+				ok = ok || want == "any" || want == got
+			} else {
+				want = "nothing"
+				ok = ok || (got == "fatal" && (c.unsendable || (!c.direct && s.hasPoison)))
+			}
+			if !ok {
+				s.misdelivered = append(s.misdelivered, fmt.Sprintf("%d:%x", c.idx, fmt.Sprintf("answered-%s-delivered-%s", want, got)))
+			}
+		}
+		s.seenResults[i] = len(c.results)
+	}
 }
 
 // run performs up to nSteps randomly chosen events, then drains.
@@ -539,10 +706,12 @@ func (s *connScn) run(nSteps, maxCalls int, profile string) {
 				unsendable := direct && !app && s.rng.Intn(7) == 0
 				if unsendable {
 					c.call = unsendableCall{c.call.(*hrpc.Get)}
+					c.unsendable = true
 				}
 				bunsendable := !direct && s.rng.Intn(8) == 0
 				if bunsendable {
 					c.call = batchedUnsendableCall{c.call.(*hrpc.Get)}
+					s.hasPoison = true
 				}
 				closing := direct && !app && !unsendable && profile == "fail" && !s.closedBy && s.rng.Intn(9) == 0
 				if closing {
@@ -645,6 +814,8 @@ func (s *connScn) run(nSteps, maxCalls int, profile string) {
 				act := "arm:" + s.gidWho[g.gid]
 				if g.zero {
 					act = "clr"
+				} else if s.gidWho[g.gid] == "" {
+					act = "arm:R" // not a sender: the reader goroutine is arming the deadline
 				}
 				opts = append(opts, opt{30, func() {
 					s.v.take(g)
@@ -693,27 +864,30 @@ func (s *connScn) run(nSteps, maxCalls int, profile string) {
 						k := kinds[s.rng.Intn(len(kinds))]
 						data, desc := s.buildFrame(w, k)
 						w.answered = true
-						before := make([]int, len(s.calls))
-						for i, c := range s.calls {
-							before[i] = len(c.results)
+						// what this frame says about each call of its request
+						for _, ci := range w.calls {
+							want := "any"
+							switch {
+							case desc == "res":
+								want = "ok"
+							case desc == "badhdr":
+								want = "connErr"
+							case strings.HasPrefix(desc, "exc-"):
+								want = desc[4:]
+							case strings.HasPrefix(desc, "pc-"):
+								for _, d := range strings.Split(desc[3:], "+") {
+									if k := strings.SplitN(d, ".", 2); len(k) == 2 && k[0] == fmt.Sprint(ci) {
+										want = k[1]
+									}
+								}
+							}
+							if _, dup := s.expect[ci]; !dup {
+								s.expect[ci] = want
+							}
 						}
 						s.v.take(g)
 						g.ch <- gateRes{data: data}
 						s.log(fmt.Sprintf("rd:%d:%s", w.id, desc))
-						// whoever is completed by this frame (other than by the connection failing)
-						// must have been written in the request that carried its id
-						for i, c := range s.calls {
-							if i >= len(before) || len(c.results) == before[i] {
-								continue
-							}
-							mine := false
-							for _, ci := range w.calls {
-								mine = mine || ci == c.idx
-							}
-							if !mine && c.results[len(c.results)-1] != "connErr" {
-								s.misdelivered = append(s.misdelivered, fmt.Sprintf("%d:%x", c.idx, fmt.Sprintf("frame%d", w.id)))
-							}
-						}
 					}})
 				}
 				if profile != "corr" && profile != "write" {
@@ -1044,9 +1218,16 @@ func init() {
 		c03conn(tier, seed, out)
 		if os.Getenv("VERIF_SHARD") == "" {
 			out.Line("%s", slowCloseScenario())
+			out.Line("%s", blockedWriteCloseScenario())
 		}
 	}
-	props["C18"] = connProp("c18", "idle")
+	c18conn := connProp("c18", "idle")
+	props["C18"] = func(tier string, seed uint64, out *Out) {
+		c18conn(tier, seed, out)
+		if os.Getenv("VERIF_SHARD") == "" {
+			out.Line("%s", deadlineScenario())
+		}
+	}
 	c02conn := connProp("c02", "corr")
 	props["C02"] = func(tier string, seed uint64, out *Out) {
 		c02conn(tier, seed, out)
